@@ -113,7 +113,7 @@ func (f *Fosite) NewIntrospectionRequest(ctx context.Context, r *http.Request, s
 	tokenTypeHint := r.PostForm.Get("token_type_hint")
 	scope := r.PostForm.Get("scope")
 	if clientToken := AccessTokenFromRequest(r); clientToken != "" {
-		if token == clientToken {
+		if token == clientToken || sameTokenSignature(token, clientToken) {
 			return &IntrospectionResponse{Active: false}, errorsx.WithStack(ErrRequestUnauthorized.WithHint("Bearer and introspection token are identical."))
 		}
 
@@ -189,4 +189,18 @@ func (r *IntrospectionResponse) GetTokenUse() TokenUse {
 
 func (r *IntrospectionResponse) GetAccessTokenType() string {
 	return r.AccessTokenType
+}
+
+// sameTokenSignature reports whether two token strings carry the same (non-empty) signature part, i.e. whether they are
+// two spellings of one token: token strategies may accept a token with and without its prefix, and stores key tokens by
+// their signature only.
+func sameTokenSignature(a, b string) bool {
+	sig := func(t string) string {
+		if i := strings.LastIndex(t, "."); i >= 0 {
+			return t[i+1:]
+		}
+		return ""
+	}
+	sa := sig(a)
+	return sa != "" && sa == sig(b)
 }
